@@ -76,7 +76,7 @@ theorem reg_rpIdHash_exact (env : Prog.Env) (rp : RP) (o : CreationOptions) (c :
 /-- and the client-data origin of every accepted ceremony satisfies the host condition -/
 theorem auth_origin_ok (env : Prog.Env) (rp : RP) (o : RequestOptions) (a : Assertion) (get : Bytes → GetOutcome) (cred : Credential)
     (h : (Prog.run env (verifyAuthentication rp o a get)).result = .ok cred) :
-    ∃ cd, env.answer (.clientData a.clientDataJSON) = .clientData cd ∧ Spec.OriginOK env cd.origin rp.origin := by
+    ∃ cd, Json.clientData a.clientDataJSON = some cd ∧ Spec.OriginOK env cd.origin rp.origin := by
   obtain ⟨cd, h1, _, _, h4⟩ := ((C01.auth_iff env rp o a get cred).1 h).clientData
   exact ⟨cd, h1, h4⟩
 
